@@ -1,6 +1,8 @@
 package corelib
 
 import (
+	"fmt"
+
 	"github.com/miekg/dns"
 
 	"verifharness/hlib"
@@ -115,11 +117,27 @@ func GenUdpQueries(g *Gen, n int) []Query {
 		if len(g.Names) > 0 {
 			name = append(Name{}, g.Names[r.Intn(len(g.Names))]...)
 		}
-		if r.Chance(1, 4) {
+		if r.Chance(1, 6) {
 			name = name.Child(g.label())
 		}
 		q := QSpec{Name: name, ID: r.Intn(65536), Class: 1, Flags: r.Intn(2)}
 		q.Type = []int{16, 16, 2, 15, 255, 1, 28, 6}[r.Intn(8)]
+		if len(g.Zones) > 0 && r.Chance(2, 3) {
+			// the names with large record sets
+			z := g.Zones[0]
+			switch r.Intn(5) {
+			case 0:
+				q.Name, q.Type = z, 2
+			case 1:
+				q.Name, q.Type = z.Child("lotofns").Child(g.label()), 1
+			case 2:
+				q.Name, q.Type = z.Child("mail"), 15
+			case 3:
+				q.Name, q.Type = z.Child("huge"), 16
+			default:
+				q.Name, q.Type = z.Child(fmt.Sprintf("t%d", []int{3 + r.Intn(12), 20}[r.Intn(2)])), 16
+			}
+		}
 		switch r.Intn(6) {
 		case 0: // no EDNS
 		default:
@@ -181,7 +199,7 @@ func RunWire(a *hlib.Args, e *hlib.Emitter, stream uint64) error {
 		for i := 0; i < nu; i++ {
 			r := hlib.NewRng(a.Seed, stream+5000+uint64(i))
 			g := Generate(r, "udp", 1700000000+int64(r.Intn(1000000)))
-			cs = append(cs, &FileCase{Class: "udp", Mtime: g.Mtime, Lines: g.Lines, Queries: GenUdpQueries(g, 70)})
+			cs = append(cs, &FileCase{Class: "udp", Mtime: g.Mtime, Lines: g.Lines, Queries: GenUdpQueries(g, 36)})
 		}
 	}
 	if err := BuildAll(cs, a.Scratch, 8); err != nil {
